@@ -624,12 +624,10 @@ class Evaluator:
         if isinstance(target, ast.Name):
             self.env[target.id] = val
         elif isinstance(target, (ast.Tuple, ast.List)):
-            if val[0] == "call" and val[1][0] == "global" and val[1][2] == "class":
-                ci = self.index.class_by_qual(val[1][1])
-                if ci is not None and any(b.split(".")[-1] == "NamedTuple" for b in ci.ext_bases) and not ci.bases:
-                    rv = self._record_values(ci, val)
-                    if rv is not None and len(rv) == len(target.elts):
-                        val = ("tuple", tuple(rv.values()))
+            if val[0] in ("call", "ite") and self._is_record(val):
+                parts = [self._record_get(val, index=i) for i in range(len(target.elts))]
+                if all(p_ is not None for p_ in parts) and self._record_get(val, index=len(target.elts)) is None:
+                    val = ("tuple", tuple(parts))
             if val[0] in ("tuple", "list") and len(val[1]) == len(target.elts) and not any(
                     isinstance(e, ast.Starred) for e in target.elts):
                 for e, v in zip(target.elts, val[1]):
@@ -964,8 +962,8 @@ class Evaluator:
             return ("attr", base, n.attr)
         if base[0] == "ext":
             return ("ext", base[1] + "." + n.attr)
-        if base[0] == "call" and base[1][0] == "global" and base[1][2] == "class":
-            v = self._record_field(base, n.attr)
+        if base[0] in ("call", "ite") and self._is_record(base):
+            v = self._record_get(base, attr=n.attr)
             if v is not None:
                 return v
         if base[0] == "global" and base[2] == "class":
@@ -977,6 +975,30 @@ class Evaluator:
                 return sym_term(s)
             return ("attr", base, n.attr)
         return ("attr", base, n.attr)
+
+    def _is_record(self, t) -> bool:
+        if t[0] == "ite":
+            return self._is_record(t[2]) and self._is_record(t[3])
+        if t[0] == "call" and t[1][0] == "global" and t[1][2] == "class":
+            ci = self.index.class_by_qual(t[1][1])
+            return ci is not None and not ci.bases and (
+                any(b.split(".")[-1] == "NamedTuple" for b in ci.ext_bases)
+                or any(ast.unparse(d).split("(")[0].split(".")[-1] == "dataclass" for d in ci.node.decorator_list))
+        return False
+
+    def _record_get(self, t, attr=None, index=None):
+        """field `attr` / position `index` of a record value (distributes over conditional records); None = unknown"""
+        if t[0] == "ite":
+            a, b = self._record_get(t[2], attr, index), self._record_get(t[3], attr, index)
+            return None if a is None or b is None else ITE(t[1], a, b)
+        ci = self.index.class_by_qual(t[1][1])
+        rv = self._record_values(ci, t)
+        if rv is None:
+            return None
+        if attr is not None:
+            return rv.get(attr)
+        vals = list(rv.values())
+        return vals[index] if -len(vals) <= index < len(vals) else None
 
     def _record_field(self, call, attr):
         """Point(x=a, y=b).x -> a for NamedTuple / dataclass records defined in the package (plain annotated fields)."""
@@ -993,6 +1015,10 @@ class Evaluator:
     def _record_values(self, ci, call):
         """{field: argument term} of a record constructor call, or None"""
         fields = [st.target.id for st in ci.node.body if isinstance(st, ast.AnnAssign) and isinstance(st.target, ast.Name)]
+        if len(call[2]) == 1 and call[2][0][0] == "star" and not call[3] and \
+                not any(isinstance(st, ast.AnnAssign) and st.value is not None for st in ci.node.body):
+            # Rec(*seq): the i-th field is seq[i] (the arity is checked by the constructor)
+            return {f: ("sub", call[2][0][1], ("const", i)) for i, f in enumerate(fields)}
         if any(a[0] == "star" for a in call[2]) or any(k == "**" for k, _ in call[3]) or len(call[2]) > len(fields):
             return None
         if any(isinstance(st, ast.FunctionDef) and st.name in ("__post_init__", "__new__", "__init__") for st in ci.node.body):
@@ -1012,6 +1038,11 @@ class Evaluator:
     def e_Subscript(self, n, live):
         base = self.ev(n.value, live)
         idx = self.ev(n.slice, live)
+        if base[0] in ("call", "ite") and idx[0] == "const" and isinstance(idx[1], int) and not isinstance(idx[1], bool) \
+                and self._is_record(base):
+            v = self._record_get(base, index=idx[1])
+            if v is not None:
+                return v
         if base[0] in ("tuple", "list") and idx[0] == "const" and isinstance(idx[1], int) and not isinstance(idx[1], bool):
             if -len(base[1]) <= idx[1] < len(base[1]) and not any(x[0] == "star" for x in base[1]):
                 return base[1][idx[1]]
@@ -1174,7 +1205,7 @@ class Evaluator:
             # slice(a, b[, c]) is the subscript a:b[:c]
             a3 = [NONE, args[0], NONE] if len(args) == 1 else list(args) + [NONE] * (3 - len(args))
             return ("slice", a3[0], a3[1], a3[2])
-        t = ("call", f, tuple(args), tuple(named + spreads))
+        t = fold_sub(("call", f, tuple(args), tuple(named + spreads))) if spreads else ("call", f, tuple(args), tuple(named))
         yf = getattr(self, "_yield_from", False)
         self._yield_from = False
         inl = self._try_inline(f, t, live, n, yield_from=yf)
@@ -1270,6 +1301,22 @@ class Evaluator:
                 return NOT(args[0])
             if name == "neg" and len(args) == 1:
                 return ("neg", args[0])
+        # rec._replace(f=v) is the record with that field changed
+        if f[0] == "attr" and f[2] == "_replace" and not args and not spreads and named and f[1][0] in ("call", "ite") and self._is_record(f[1]):
+            def repl(rec):
+                if rec[0] == "ite":
+                    a, b = repl(rec[2]), repl(rec[3])
+                    return None if a is None or b is None else ITE(rec[1], a, b)
+                ci = self.index.class_by_qual(rec[1][1])
+                rv = self._record_values(ci, rec)
+                if rv is None or not all(k in rv for k, _ in named):
+                    return None
+                rv.update(dict(named))
+                return ("call", rec[1], tuple(rv.values()), ())
+
+            out = repl(f[1])
+            if out is not None:
+                return out
         # "{}:{}".format(a, b) is the f-string
         if f[0] == "attr" and f[2] == "format" and f[1][0] == "const" and isinstance(f[1][1], str) and not spreads \
                 and not any(a[0] == "star" for a in args):
@@ -1520,37 +1567,95 @@ class Evaluator:
             v = ITE(lv, tm, v)
         return v
 
-    def _for_over_helper_generator(self, st, live):
-        """`for x in helper(...): body` where helper is a new generator function with one `yield v` inside its loop(s):
-        the helper's loop becomes this function's loop, x is v, the body runs where the yield was.  None = not that form."""
-        if not isinstance(st.iter, ast.Call) or st.orelse:
+    def _splice_generator(self, call_term, live, depth=0):
+        """Open up `helper(...)`, a new generator function with a single `yield v` / `yield from xs` inside its loop(s).
+
+        Emits the helper's events that precede the yield, registers its loops, and returns (loop ids to enter, element
+        value, condition under which an element is produced, events to emit after the consumer's body, qual) -- so that
+        `for x in helper(...): body` reads as the helper's own loop with `body` in place of the yield.  A helper loop that
+        itself iterates another such generator (a pipeline) is spliced recursively.  None = not that form."""
+        if depth > 3 or call_term[0] != "call" or self._inline_target(call_term[1]) is None:
             return None
-        saved = len(self.events)
-        f = self.ev(st.iter.func, live)
-        if self._inline_target(f) is None:
-            del self.events[saved:]
-            return None
-        args = [self.ev(a, live) for a in st.iter.args]
-        kws = [(k.arg if k.arg is not None else "**", self.ev(k.value, live)) for k in st.iter.keywords]
-        named = sorted([kv for kv in kws if kv[0] != "**"], key=lambda kv: kv[0])
-        call_term = ("call", f, tuple(args), tuple(named + [kv for kv in kws if kv[0] == "**"]))
-        prep = self._prepare_inline(f, call_term)
+        prep = self._prepare_inline(call_term[1], call_term)
         if prep is None:
             return None
         cs, inst, idmap, qual = prep
         ys = cs.yields
-        if not cs.is_generator or len(ys) != 1 or not ys[0].loops or ys[0].term[0] == "yieldfrom":
+        if not cs.is_generator or len(ys) != 1 or not ys[0].loops:
             return None
         y = ys[0]
         after = [e for e in cs.events if e.idx > y.idx and e.kind != "return"]
         if any(e.kind in ("store", "call", "raise", "yield") and set(y.loops) & set(e.loops) for e in after):
-            return None  # work after the yield inside the loop would have to run after the body
+            return None  # work after the yield inside the loop would have to run after the consumer's body
         self._register_inlined(cs, inst, idmap)
+        # pipeline: a loop of the helper that iterates another helper generator
+        sub_map: Dict[tuple, tuple] = {}
+        loop_repl: Dict[str, Tuple[str, ...]] = {}
+        post_all = []
+        for l in y.loops:
+            nl = idmap[l]
+            it = subst(self.loops[nl].iter, sub_map)
+            inner = self._splice_generator(it, live, depth + 1) if it[0] == "call" else None
+            if inner is not None:
+                ilids, ival, ilive, ipost, _ = inner
+                loop_repl[nl] = tuple(ilids)
+                sub_map[("elem", nl)] = ival
+                sub_map[("inloop", nl)] = AND(*[("inloop", x) for x in ilids], ilive)
+                post_all = ipost + post_all
+            else:
+                self.loops[nl].iter = it
+
+        def inst2(t):
+            t = subst(inst(t), sub_map)
+            return self._fold_records(fold_sub(t)) if sub_map else t
+
+        def flat(lids):
+            out = []
+            for x in lids:
+                out += list(loop_repl.get(x, (x,)))
+            return tuple(out)
+
         for e in cs.events:
             if e.idx < y.idx and e.kind != "return":
-                self._reemit(e, live, inst, idmap, qual)
+                ne = self._reemit(e, live, inst2, idmap, qual)
+                ne.loops = tuple(self.loop_stack) + flat(tuple(idmap.get(x, x) for x in e.loops))
+                if sub_map:
+                    ne.live = AND(*conjuncts(ne.live))  # re-flatten the substituted loop markers
         self.inlined.append(qual)
-        yl = tuple(idmap[l] for l in y.loops)
+        yl = list(flat(tuple(idmap[l] for l in y.loops)))
+        val, ylive = inst2(y.term), inst2(y.live)
+        if val[0] == "yieldfrom":
+            # `yield from xs` inside the loop: one more loop over xs
+            xl = self.fresh("L")
+            self.loops[xl] = LoopInfo(xl, "for", val[1], y.node, yl[-1] if yl else None, "_")
+            yl.append(xl)
+            ylive = AND(ylive, ("inloop", xl))
+            val = ("elem", xl)
+        post = [(e, inst2, idmap, qual) for e in after] + post_all
+        return yl, val, AND(*conjuncts(ylive)), post, qual
+
+    def _for_over_helper_generator(self, st, live):
+        """`for x in helper(...): body` (the call written in place or held in a local): see _splice_generator."""
+        if st.orelse:
+            return None
+        if isinstance(st.iter, ast.Call):
+            saved = len(self.events)
+            f = self.ev(st.iter.func, live)
+            if self._inline_target(f) is None:
+                del self.events[saved:]
+                return None
+            args = [self.ev(a, live) for a in st.iter.args]
+            kws = [(k.arg if k.arg is not None else "**", self.ev(k.value, live)) for k in st.iter.keywords]
+            named = sorted([kv for kv in kws if kv[0] != "**"], key=lambda kv: kv[0])
+            call_term = ("call", f, tuple(args), tuple(named + [kv for kv in kws if kv[0] == "**"]))
+        elif isinstance(st.iter, ast.Name) and self.env.get(st.iter.id, ("?",))[0] == "call":
+            call_term = self.env[st.iter.id]
+        else:
+            return None
+        sp = self._splice_generator(call_term, live)
+        if sp is None:
+            return None
+        yl, val, ylive, post, qual = sp
         assigned = self._assigned_names(st.body)
         keep = self._aug_only_lists(st.body, assigned)
         assigned = [n_ for n_ in assigned if n_ not in keep]
@@ -1560,8 +1665,10 @@ class Evaluator:
                 self.env[n_] = ("phi", n_, yl[0])
         for l in yl:
             self.loop_stack.append(l)
-        self.assign(st.target, inst(y.term), live, st)
-        self.block(st.body, AND(live, inst(y.live)))
+        if val == ("elem", yl[-1]):
+            self.loops[yl[-1]].target_text = ast.unparse(st.target)  # the consumer unpacks the innermost element
+        self.assign(st.target, val, live, st)
+        self.block(st.body, AND(live, ylive))
         for _ in yl:
             self.loop_stack.pop()
         body_env = self.env
@@ -1571,8 +1678,8 @@ class Evaluator:
         for n_ in _target_names(st.target):
             self.env[n_] = ("loopout", n_, yl[0])
         self.loops[yl[0]].body_env = body_env  # type: ignore[attr-defined]
-        for e in after:
-            self._reemit(e, live, inst, idmap, qual)
+        for e, inst_, idmap_, qual_ in post:
+            self._reemit(e, live, inst_, idmap_, qual_)
         return live
 
     def _comp(self, n, live, kind, elt_fn):
@@ -1789,14 +1896,19 @@ def fold_sub(t):
             else:
                 items.append((k, v))
         return ("dict", tuple(items))
-    if t and t[0] == "call" and any(k == "**" and v[0] == "dict" and all(kk[0] == "const" and isinstance(kk[1], str) for kk, _ in v[1])
-                                    for k, v in t[3]):
+    if t and t[0] == "call" and any(k == "**" and v[0] == "dict" and all((kk[0] == "const" and isinstance(kk[1], str)) or kk == ("dstar",)
+                                                                         for kk, _ in v[1]) for k, v in t[3]):
+        # f(**{"a": x, **rest}) is f(a=x, **rest)
         named = [(k, v) for k, v in t[3] if k != "**"]
         spreads = []
         for k, v in t[3]:
             if k == "**":
-                if v[0] == "dict" and all(kk[0] == "const" and isinstance(kk[1], str) for kk, _ in v[1]):
-                    named += [(kk[1], vv) for kk, vv in v[1]]
+                if v[0] == "dict" and all((kk[0] == "const" and isinstance(kk[1], str)) or kk == ("dstar",) for kk, _ in v[1]):
+                    for kk, vv in v[1]:
+                        if kk == ("dstar",):
+                            spreads.append(("**", vv))
+                        else:
+                            named = [(a, b) for a, b in named if a != kk[1]] + [(kk[1], vv)]
                 else:
                     spreads.append((k, v))
         return ("call", t[1], t[2], tuple(sorted(named, key=lambda kv: kv[0]) + spreads))
